@@ -467,6 +467,12 @@ pub fn write_v_crate_n(dir: &Path, name: &str, files: &[(String, String)], no_st
             package_context(if ncrates == 1 { ISO_CONTEXT.load(std::sync::atomic::Ordering::Relaxed) } else { c }),
             macro_path()
         );
+        // regime crates (C18) also forbid `unexpected_cfgs`: a `#[cfg(feature = "..")]` (or any other condition the
+        // user's crate never declared) emitted by the macro is evaluated in the *user's* crate — generated code
+        // whose meaning depends on it refers to things outside core and arbitrary_int as soon as the user
+        // happens to have a feature of that name. `forbid` also defeats an `#[allow(unexpected_cfgs)]` emitted
+        // next to it.
+        let toml = if deny_docs { format!("{}\n[lints.rust]\nunexpected_cfgs = \"forbid\"\n", toml) } else { toml };
         std::fs::write(cdir.join("Cargo.toml"), toml).unwrap();
         members.push(format!("\"{}\"", cname));
     }
